@@ -35,6 +35,10 @@ pub enum DetCmd {
     /// optionally relayed inside a digest that also lists other members
     Stale { back: u64, times: u8, relayed: bool },
     Evaluate,
+    /// the application feeds both observers a newer state of the member through the catch-up
+    /// entry point (`reset_node_state_if_update`); it carries no heartbeat and must not change
+    /// what the detector knows
+    Catchup { bump: u64 },
 }
 
 fn mk(rt: &tokio::runtime::Runtime, id: &Id, cfg: &DetCfg) -> (Chitchat, watch::Sender<HashSet<SocketAddr>>) {
@@ -220,6 +224,19 @@ impl Dw {
                 }
                 Ok(())
             }
+            DetCmd::Catchup { bump } => {
+                let rid = self.x.to_real();
+                let Some(cur) = self.n2.node_state(&rid).map(|ns| (ns.max_version(), ns.last_gc_version())) else { return Ok(()) };
+                let mv = cur.0 + (*bump).max(1);
+                let _g = self.rt.enter();
+                for n in [&mut self.n1, &mut self.n2] {
+                    let kv = ("k".to_string(), chitchat::VersionedValue { value: format!("v{mv}"), version: mv, status: chitchat::DeletionStatus::Set });
+                    let rid2 = rid.clone();
+                    guarded(|| n.reset_node_state_if_update(&rid2, vec![kv].into_iter(), mv, cur.1)).map_err(|p| mk("C11", "C11.panic", format!("catch-up panicked: {p}")))?;
+                }
+                self.stats.inc("catchups");
+                Ok(())
+            }
             DetCmd::Evaluate => {
                 {
                     let _g = self.rt.enter();
@@ -376,6 +393,9 @@ fn gen(seed: u64) -> (DetCfg, Vec<DetCmd>) {
             cmds.push(DetCmd::Advance { ms: dt });
         }
         cmds.push(DetCmd::Fresh { inc: r.range(1, 4) });
+        if r.chance(0.05) {
+            cmds.push(DetCmd::Catchup { bump: r.range(1, 3) });
+        }
         if r.chance(0.4) {
             cmds.push(DetCmd::Stale { back: if r.chance(0.15) { 1 << 40 } else { r.below(6) }, times: 1, relayed: r.chance(0.3) });
         }
